@@ -606,6 +606,32 @@ static void op_enchuge(void)
     jint("small", adlen < 65536 ? (long)adlen : -1); jbytes("out", c, 13); jend();
 }
 
+/* dechuge mode= v= mlen=  : a packet of mlen + 8 bytes of 0xA5 (mlen may exceed 4 GiB), decrypted in place.  It does not carry a
+ * valid tag, so it must be rejected and every one of the mlen plaintext bytes must be zero afterwards.  Lengths above 2^31 do
+ * not fit TLC's integers: the event carries them as text and the non-zero count capped at 10^9. */
+static void op_dechuge(void)
+{
+    long v = kvi("v", 128);
+    unsigned long long mlen = strtoull(kv("mlen", "0"), NULL, 0);
+    unsigned char key[32], nonce[12], ad[3] = {7, 8, 9}; size_t outlen = (size_t)-1;
+    unsigned char *p = mmap(NULL, mlen + 8 + 8192, PROT_READ | PROT_WRITE, MAP_PRIVATE | MAP_ANONYMOUS | MAP_NORESERVE, -1, 0);
+    if (p == MAP_FAILED) die("cannot map the huge packet");
+    unsigned char *c = p + 4096;
+    memset(p, 0xC3, 4096); memset(c, 0xA5, mlen + 8); memset(c + mlen + 8, 0xC3, 4096);
+    memset(key, 0x42, sizeof(key)); memset(nonce, 0x24, sizeof(nonce));
+    int res = get_dec(kv("mode", "aead"), v)(c, &outlen, c, (size_t)(mlen + 8), ad, 3, nonce, key);
+    unsigned long long nz = 0, first = 0; int canary = 1;
+    for (unsigned long long i = 0; i < mlen; i++) if (c[i]) { if (!nz) first = i; nz++; }
+    for (int i = 0; i < 4096; i++) if (p[i] != 0xC3 || c[mlen + 8 + i] != 0xC3) canary = 0;
+    munmap(p, mlen + 8 + 8192);
+    jbegin("DecBig"); jstr("mode", kv("mode", "aead")); jint("v", v); jint("adlen", 3); jint("clen", 0);
+    printf(",\"desc\":\"clen:%llu first-nonzero:%llu\"", mlen + 8, first);
+    jint("tamper", 9); jint("pos", 0); jint("alias", 1); jint("pf", 0xA5);
+    jint("res", res); jint("mlen", -1);
+    jint("nonzero", (long)(nz > 1000000000ULL ? 1000000000ULL : nz)); jint("first", nz ? 1 : -1);
+    jint("eqplain", 0); jint("canary", canary); jend();
+}
+
 /* ------------------------------------------------------------------ permutation */
 /* perm v= rounds= s=<16 bytes hex> k=<key bytes hex>; state words little-endian on this host */
 static void op_perm(void)
@@ -1446,6 +1472,7 @@ int main(void)
         else if (!strcmp(cur_op, "perm")) op_perm();
         else if (!strcmp(cur_op, "hashhuge")) op_hashhuge();
         else if (!strcmp(cur_op, "enchuge")) op_enchuge();
+        else if (!strcmp(cur_op, "dechuge")) op_dechuge();
         else if (!strcmp(cur_op, "garbage")) op_garbage();
         else if (!strcmp(cur_op, "hash")) op_hash();
         else if (!strcmp(cur_op, "hinit")) op_hinit(0);
